@@ -55,9 +55,11 @@ CLAIMS = {
             'Coordinate conversions are mutually inverse and reject introns for UNBOUNDED symbolic exon '
             'coordinates (1-3 exons, thorough 4, both strands); extracted sequences equal the strand-corrected '
             'genome elementwise; ORF start/end and Sec positions agree with CDS/UTR/Sec features; pointer cache '
-            'inductive step from any valid state; GTF byte-range pointers; GTF line round trip.',
-            'Bounds per condition in the evidence file. GtfIO.parse/write over whole files is not encoded '
-            '(only the per-line round trip and the pointer partition).'),
+            'inductive step from any valid state; GTF byte-range pointers; GTF line round trip; whole-annotation '
+            'GtfIO.write -> dump_gtf round trip (1 gene with CDS/UTR/Sec/tags, and 2 genes / 3 transcripts) for symbolic '
+            'coordinates < 59000.',
+            'Bounds per condition in the evidence file. On-disk model loading (TranscriptPointer.load over real bytes) '
+            'is not encoded (only the pointer partition and the per-line parse).'),
     'C12': (True, CH,
             'One inductive step of the index metadata state machine from states built by real registrations; '
             'save/override/load history over a dict-backed file system; generateIndex/updateIndex digest the pool '
